@@ -437,6 +437,54 @@ pub fn run(seed: u64) -> RunReport {
             ),
         }
     }
+    // A request limit narrows the certificate: exactly entitlement ∩ limit
+    // for the limited family, the whole entitlement for the others (C02).
+    {
+        step += 1;
+        stop_if_dead!('run);
+        let (limit_v4, expect_v4) = *rng.pick(&[
+            ("10.0.128.0/17", "10.0.128.0/17"),
+            ("10.0.0.0/17, 10.2.0.0/16", "10.0.0.0/17"),
+            ("10.0.4.0/24, 10.0.9.0/24", "10.0.4.0/24, 10.0.9.0/24"),
+        ]);
+        let mut limit = RequestResourceLimit::new();
+        limit.with_ipv4(
+            ResourceSet::from_strs("", limit_v4, "").unwrap()
+                .to_ip_resources_v4().to_blocks().unwrap().into()
+        );
+        let msg = provisioning::Message::issue(
+            sender("kidA"), recipient(PARENT),
+            IssuanceRequest::new(rcn.clone(), limit, csr_a.clone())
+        );
+        let (out, reply) = call_6492(&r, sign6492(msg, &a.key), &parent_id);
+        log.push(format!("issue kidA limited to {limit_v4} -> {out:?}"));
+        cases.insert("6492.issue_limited".into());
+        match reply.as_ref().map(|m| m.payload()) {
+            Some(Payload::IssueResponse(resp)) => {
+                let cert = resp.clone().into_issued();
+                let got = ResourceSet::try_from(cert.cert())
+                    .unwrap_or_default();
+                let expected = ResourceSet::from_strs(
+                    "AS65000-AS65009", expect_v4, "2001:db8::/48"
+                ).unwrap();
+                if got != expected {
+                    fail!(
+                        "C02", "issued_not_exact_with_limit",
+                        "kidA (entitled to {res_a}) asked for a \
+                         certificate limited to IPv4 {limit_v4} and \
+                         obtained {got}, expected {expected}"
+                    );
+                }
+            }
+            // A limit that reaches outside the entitlement may be refused
+            // outright.
+            _ if limit_v4 != expect_v4 && !is_acted_upon(&out) => { }
+            _ => fail!(
+                "C12", "valid_request_refused",
+                "issue by kidA limited to {limit_v4}: {out:?}"
+            ),
+        }
+    }
     // A signs a request for B's CSR key under its own name: allowed (it
     // becomes A's key). A revokes B's key: must not touch B.
     step += 1;
